@@ -195,6 +195,20 @@ SPECS = {
         ("weakforms_thickness_on_F_missing", R + "Simulations/_weakforms.py", "            F_e = computeF.Integrate_e(field) * thickness", "            F_e = computeF.Integrate_e(field)"),
         ("linear_assemble_cols", R + "FEM/_forms.py", "        rows = groupElem.Get_assembly_e(dof_n).ravel()\n        columns = np.zeros_like(rows)", "        rows = np.sort(groupElem.Get_assembly_e(dof_n), axis=1).ravel()\n        columns = np.zeros_like(rows)"),
     ],
+    "C14": [
+        ("coord_setter_no_notify", MESH, '        # as Translate / Rotate / Symmetry do: the simulations observing the mesh must reassemble\n        self._Notify("The mesh has been modified")', '        # as Translate / Rotate / Symmetry do: the simulations observing the mesh must reassemble'),
+        ("symmetry_no_notify", MESH, '        newCoord = Symmetry(oldCoord, point, n)\n        for groupElem in self.dict_groupElem.values():\n            groupElem.coord = newCoord\n        self._Notify("The mesh has been modified")', '        newCoord = Symmetry(oldCoord, point, n)\n        for groupElem in self.dict_groupElem.values():\n            groupElem.coord = newCoord'),
+        ("group_coord_keeps_cache", GE, "        self.__coord = coord[self.nodes]\n        self._InitMatrix()", "        self.__coord = coord[self.nodes]"),
+        ("new_mesh_not_observed", SIMU, "            # simulation will look for modifications of the new mesh too\n            mesh._Add_observer(self)\n", ""),
+        ("param_same_sign_no_update", R + "Utilities/_params.py", "        instance.__dict__[self.__name] = value\n        if isinstance(instance, Updatable):\n            instance.Need_Update()", "        old = instance.__dict__.get(self.__name)\n        instance.__dict__[self.__name] = value\n        if isinstance(instance, Updatable) and not (isinstance(old, float) and isinstance(value, float) and abs(value - old) <= 1e-3 * abs(old)):\n            instance.Need_Update()"),
+        ("model_update_no_notify", MUT, '        if value:\n            self._Notify("The model has been modified.")', '        if value and not self.needUpdate:\n            self._Notify("The model has been modified.")'),
+        ("rayleigh_no_update", R + "Simulations/_elastic.py", "        self.__coefK = coefK\n        self.Need_Update()", "        self.__coefK = coefK"),
+        ("behavior_eigen_once", R + "Models/InElastic/_behavior.py", "        if self.__eigen is None or not np.array_equal(self.__eigen_C, C):", "        if self.__eigen is None:"),
+        ("inelastic_state_survives_mesh", R + "Simulations/_inelastic.py", "        if self.mesh is mesh:\n            # the internal variables live on the Gauss points of the mesh they were integrated on\n            self.__z = {}\n            self.__zOld = {}", "        if self.mesh is mesh:\n            self.__z = {}"),
+        ("phasefield_material_not_observed", R + "Simulations/_phasefield.py", "        self.phaseFieldModel.material._Add_observer(self)\n", ""),
+        ("mesh_moved_keeps_simu_cache", SIMU, "            # the nodes moved: values cached per group of elements (e.g. element mass matrices) are stale\n            clear_cached_computed_values(self)\n", ""),
+        ("set_iter_keeps_matrices", SIMU, "        self.__Init_Sols_n()\n\n        self.Need_Update()  # need to reconstruct matrices", "        self.__Init_Sols_n()"),
+    ],
 }
 
 
